@@ -304,6 +304,13 @@ func (f *Frame) ReadFrom(r io.Reader) (n int64, err error) {
 }
 
 func (f Frame) WriteTo(w io.Writer) (int64, error) {
+	// Only the frame proper goes on the wire: header, extended length, mask and PayloadLength() bytes of payload. The
+	// slice can be longer than that, e.g. a frame for which SetPayload was never called (NewFrame hands out
+	// frameMaxHeaderLength bytes) or one taken from the pool that still has the size of an earlier, larger payload.
+	if n := f.payloadOffset() + f.PayloadLength(); n >= 0 && n < len(f) {
+		f = f[:n]
+	}
+
 	written := 0
 	for written < len(f) {
 		n, err := w.Write(f[written:])
